@@ -58,6 +58,8 @@ type C12Scenario struct {
 	DSYield     bool         `json:"ds_yield,omitempty"` // datastore accesses are yield points too
 	DSReadsOnly bool         `json:"ds_reads_only,omitempty"`
 	Canonical   bool         `json:"canonical,omitempty"` // parked goroutines ordered by role (schedule enumeration)
+	// Reset, when set, selects the whole-store-deletion engine (c12reset_test.go); the other fields are unused then.
+	Reset *C12ResetScenario `json:"reset,omitempty"`
 }
 
 func genC12(t *rapid.T) C12Scenario {
@@ -104,6 +106,9 @@ type c12ReaderObs struct {
 }
 
 func runC12(t *testing.T, s C12Scenario) (res Result) {
+	if s.Reset != nil {
+		return runC12Reset(t, *s.Reset)
+	}
 	bubble(t, func() {
 		e := newStoreEnv(s.Cfg, storeChainLen)
 		ctx, cancel := vctx(24 * time.Hour)
